@@ -75,14 +75,19 @@ def impl_cxn(slide, case):
                                                  c.begin_x, c.begin_y, c.end_x, c.end_y)
 
     import zlib
-    respell = zlib.crc32(repr(case).encode()) % 3 == 0
+    h = zlib.crc32(repr(case).encode())
+    respell = h % 3 == 0
+    explicit = "0" if h % 2 else "false"
 
     def foreign_spelling():
-        # xsd:boolean as other producers spell it: flipH="true" / flipV="false" (the library writes "1" / "0")
+        # xsd:boolean as other producers spell it: flipH="true" / flipV="false" (the library writes "1" / "0"), and the
+        # unflipped state written out (flipH="0" / "false") where the library leaves the attribute away
         for x in e.xpath(".//a:xfrm"):
             for a in ("flipH", "flipV"):
                 if x.get(a) in ("1", "0"):
                     x.set(a, "true" if x.get(a) == "1" else "false")
+                elif x.get(a) is None:
+                    x.set(a, explicit)
     if respell:
         foreign_spelling()
     outs = [snap()]
